@@ -36,6 +36,19 @@ def parseHex4 (s : Bytes) : Option Int :=
   | 45 :: ds => (hexDigits ds).map (fun n => - Int.ofNat n)
   | ds => (hexDigits ds).map Int.ofNat
 
+/-- after `\uXXXX` = n: a high surrogate followed by an escaped low surrogate (`\u` + four hex digits,
+    strconv.ParseUint: no sign) is one character beyond the basic plane (utf16.DecodeRune); anything else
+    leaves the escape on its own -/
+def surrogatePair (n : Int) (rest : Bytes) : Int × Bytes :=
+  if 0xD800 ≤ n && n < 0xE000 && 6 ≤ rest.length && rest.take 2 == [92, 117] then
+    match hexDigits ((rest.drop 2).take 4) with
+    | some low =>
+      if 0xD800 ≤ n && n < 0xDC00 && 0xDC00 ≤ low && low < 0xE000 then
+        ((n - 0xD800) * 1024 + (Int.ofNat low - 0xDC00) + 0x10000, rest.drop 6)
+      else (n, rest)
+    | none => (n, rest)
+  else (n, rest)
+
 /-- the decoding loop; `fuel` bounds the iterations by the input length.  A byte that is not
     valid UTF-8 (RuneError of width 1) outside an escape is copied as it is, like the fast path. -/
 def loop : Nat → Bytes → Bool → Bytes → Option Bytes
@@ -52,7 +65,7 @@ def loop : Nat → Bytes → Bool → Bytes → Option Bytes
       if escaping then
         if r0 == 117 then          -- 'u'
           if s1.length < 4 then none
-          else (parseHex4 (s1.take 4)).map (fun n => (n, s1.drop 4))
+          else (parseHex4 (s1.take 4)).map (fun n => surrogatePair n (s1.drop 4))
         else if r0 == 34 then some (34, s1)   -- \" (accepted on input only; never written by quoteString)
         else (unescape r0).map (fun r => (Int.ofNat r, s1))
       else some (Int.ofNat r0, s1)
